@@ -182,7 +182,9 @@ pub fn gen_rw_run(check: &str, seed: u64, tier: Tier) -> Run {
 pub fn effective_budget(run: &Run) -> usize {
     let b = run.get("node_budget").max(50) as usize;
     if cfg!(feature = "explanations") {
-        (b / 3).max(40)
+        // proof chains make big e-graphs extremely slow to rewrite (a 600-node budget has cost ten
+        // minutes of CPU for one run)
+        (b / 3).clamp(40, 220)
     } else {
         b
     }
